@@ -6,6 +6,7 @@ import VlsModel.Gen.FnDerive
 import VlsModel.Gen.FnNodeWallet
 import VlsModel.Gen.FnApproverC08
 import VlsModel.Gen.FnNodeOnchain
+import VlsModel.Gen.FnHandlerPaths
 import VlsModel.Gen.FnOnchainWrap
 import VlsModel.Lemmas.NodeWalletFn
 import VlsModel.Model.Wallet
@@ -1072,5 +1073,63 @@ example : ucksFrom [⟨1000, true⟩, ⟨2000, false⟩] 0 [some ((), [[1, 2], [
       = [⟨true, true, some 5⟩, ⟨true, false, none⟩]
     ∧ weightLowerBound (ucksFrom [⟨1000, true⟩, ⟨2000, false⟩] 0 [some ((), [[1, 2], [3]]), none]) 400 = some 482
     ∧ 400 + ucksTotal [some ((), [[1, 2], [3]]), none] ≤ Rs.USIZE_MAX := by decide
+
+/-! ## Round 9: the derivation path the handler claims for a PSBT output (`extract_output_path`, `extract_psbt_output_paths`,
+handler.rs, `Gen/FnHandlerPaths.lean`)
+
+`opaths` of `check_onchain_tx` / the wallet path of the sweeps come from here: the single BIP-32 derivation of the output if
+there is one (more than one: `unimplemented!`), else the single taproot key origin without leaf hashes, else the master
+(empty) path = "not ours".  `m.iter().next().unwrap()` is the external "first entry" (rules `hp_first_*`), instantiated
+with the head of the representing list. -/
+section HandlerPaths
+open VlsModel.Gen.FnHandlerPaths
+
+variable {PKh FP DPh XO TL : Type}
+
+def firstE {α : Type} : List α → Rs.M α
+  | x :: _ => .ok x
+  | [] => .error .panic
+
+/-- the path claimed for an output, as a function of its two PSBT maps -/
+def claimedPath (master : DPh) (b : List (PKh × (FP × DPh))) (t : List (XO × (List TL × (FP × DPh)))) : Rs.M DPh :=
+  match b with
+  | [(_, (_, path))] => .ok path
+  | _ :: _ :: _ => .error .panic
+  | [] =>
+    match t with
+    | [(_, ([], (_, path)))] => .ok path
+    | [(_, (_ :: _, _))] => .error .panic
+    | _ :: _ :: _ => .error .panic
+    | [] => .ok master
+
+theorem C08_fn_extract_output_path (master : DPh) (b : List (PKh × (FP × DPh))) (t : List (XO × (List TL × (FP × DPh)))) :
+    extract_output_path (ext_first_entry_bip32 := firstE) (ext_first_entry_tap := firstE) (ext_DerivationPath_master := master) b t
+      = claimedPath master b t := by
+  unfold extract_output_path claimedPath
+  match b with
+  | [] =>
+    match t with
+    | [] => rfl
+    | [(x, ([], (f, path)))] => rfl
+    | [(x, (h :: hs, src))] => rfl
+    | _ :: _ :: _ => simp [Rs.panic, bind, Except.bind]
+  | [(k, (f, path))] => rfl
+  | _ :: _ :: _ => simp [Rs.panic, bind, Except.bind]
+
+theorem C08_fn_extract_psbt_output_paths (master : DPh) (psbt : Psbt PKh FP DPh XO TL) :
+    extract_psbt_output_paths (ext_first_entry_bip32 := firstE) (ext_first_entry_tap := firstE) (ext_DerivationPath_master := master) psbt
+      = psbt.outputs.mapM (fun o => claimedPath master o.bip32_derivation o.tap_key_origins) := by
+  unfold extract_psbt_output_paths
+  have : (fun (o : PsbtOutput PKh FP DPh XO TL) => do
+        let t_3 ← extract_output_path (ext_first_entry_bip32 := firstE) (ext_first_entry_tap := firstE) (ext_DerivationPath_master := master) o.bip32_derivation o.tap_key_origins
+        pure t_3) = fun o => claimedPath master o.bip32_derivation o.tap_key_origins := by
+    funext o; rw [C08_fn_extract_output_path]
+  rw [this]
+
+example : claimedPath (PKh := Nat) (FP := Nat) (XO := Nat) (TL := Nat) [] [(1, (2, [7, 8]))] [] = .ok [7, 8]
+    ∧ claimedPath (PKh := Nat) (FP := Nat) (XO := Nat) (TL := Nat) ([] : List Nat) [] [] = .ok []
+    ∧ claimedPath (PKh := Nat) (FP := Nat) (XO := Nat) (TL := Nat) [] [] [(1, ([], (2, [5])))] = .ok [5] := ⟨rfl, rfl, rfl⟩
+
+end HandlerPaths
 
 end VlsModel.Props.C08Fn
